@@ -113,7 +113,7 @@ fn gen_def(rng: &mut Rng, cid: usize, stats: &mut Stats) -> String {
         "countervec" | "gaugevec" => {
             let vars: Vec<String> = if rng.chance(50) { vec!["l".into()] } else { vec!["l".into(), "b".into()] };
             let nch = rng.below(5);
-            let vals = ["", "a", "ab", "b", "a\u{ff}", "10", "9"];
+            let vals = ["", "a", "ab", "b", "a\u{ff}", "10", "9", "a\u{0}b", "c"];   // "a\0b" next to "a": a sort key that joins the values must not confuse them
             let mut seen = BTreeSet::new(); let mut ch = vec![];
             for _ in 0..nch { let t: Vec<String> = vars.iter().map(|_| rng.pick(&vals).to_string()).collect(); if seen.insert(t.clone()) { ch.push(hex_list(&t)); } }
             format!("reg def c{} kind={} name={} help={} consts={} vars={} children={}", cid, kind, hex(name), hex(help), pairs_str(&consts), hex_list(&vars), if ch.is_empty() { "none".to_string() } else { ch.join(";") })
